@@ -661,6 +661,29 @@ def c18_run(ctx):
             gv = [float(got[f]) for f in ak.fields(got) if f in COORD_FIELDS]
             if not all(close64(x, y, 10.0) for x, y in zip(gv, C.stored(want))):
                 problems.append((f"record-value:{m}", f"{m} on a record ({fl}:{sig}): {gv}; the equivalent object gives {list(C.stored(want))}"))
+        # arrays built from MIXED spellings (one coordinate through a momentum synonym, the others geometric): the selected record is the
+        # vector.obj built from the same names - same flavor (a single momentum spelling makes a momentum vector), same momentum properties
+        gnames = list(C.signames(sig))
+        for j, g in enumerate(gnames):
+            for syn in {"x": ["px"], "y": ["py"], "rho": ["pt"], "z": ["pz"], "t": ["E", "e", "energy"], "tau": ["M", "m", "mass"]}.get(g, []):
+                nms = [syn if i == j else nm for i, nm in enumerate(gnames)]
+                n += 1
+                try:
+                    arr_ = vector.zip({nm: numpy.array([row[i] for row in rows[:3]]) for i, nm in enumerate(nms)})
+                    jag_ = ak.unflatten(arr_, [2, 0, 1])
+                    rec_ = jag_[0][1]
+                    obj_ = vector.obj(**{nm: rows[1][i] for i, nm in enumerate(nms)})
+                    gname_ = rec_.layout.parameter("__record__")
+                    wname_ = ("Momentum" if isinstance(obj_, vector.Momentum) else "Vector") + f"{dim}D"
+                    if gname_ != wname_:
+                        problems.append((f"record-flavor-dim:mixed-spelling:{syn}", f"a record selected from vector.zip({nms}) is a {gname_} record; vector.obj with the same names is a {type(obj_).__name__}"))
+                        continue
+                    for rd in [syn, "x", "rho"] + (["pt", "px"] if isinstance(obj_, vector.Momentum) else []):
+                        if hasattr(obj_, rd) and not close64(getattr(rec_, rd), getattr(obj_, rd), 10.0):
+                            problems.append((f"record-value:mixed-spelling:{syn}", f"record from vector.zip({nms}): .{rd} = {getattr(rec_, rd)}, the object gives {getattr(obj_, rd)}"))
+                            break
+                except Exception as e:  # noqa: BLE001
+                    problems.append((f"record-raises:mixed-spelling:{syn}", f"vector.zip({nms}) / record selection / .{syn}: {type(e).__name__}: {str(e)[:80]}"))
         if len(samples) < 2:
             samples.append({"sig": sig, "flavor": fl, "layouts": list(layouts), "type_of_nested3": str(ak.type(layouts["nested3"]))})
     raw, nraw = raw_momentum_records(ctx)
